@@ -17,6 +17,7 @@ import r_math
 import r_panic
 import r_grammar
 import r_parsers
+import r_term
 import r_lookup
 import grammar
 import r_unit
@@ -73,6 +74,7 @@ def c08(rep, tier):
                                            "liquid_core::runtime::stack::StackFrame", "&R"])
     r_scope.run_scopetype(p, rep, keys=[k for k in r_scope.SCOPE_SPEC if "Render " in k or "Include " in k or "render_tag" in k or "include_tag" in k])
     r_scope.run_rtcalls(p, rep, only=["liquid_lib::stdlib::tags::include_tag::Include", "liquid_lib::stdlib::tags::render_tag::Render"])
+    r_scope.run_argeval(p, rep)
     r_pair.check_loop_reset(p, rep, "<liquid_lib::stdlib::tags::render_tag::Render as liquid_core::runtime::renderable::Renderable>::render_to", "Render::render_to(for)")
     r_partials.run_loud(p, rep)
     r_freeze.run_freeze(p, rep)
@@ -86,6 +88,7 @@ def c04(rep, tier):
     r_fwd.run_runtime_matrix(p, rep, methods=["set_global", "set_index", "get_index", "get", "try_get"])
     r_fwd.run_lookup_keying(p, rep)
     r_scope.run_rtcalls(p, rep)
+    r_scope.run_argeval(p, rep)
     r_verbatim.param_unused(p, rep, "<liquid_lib::stdlib::blocks::capture_block::Capture as liquid_core::runtime::renderable::Renderable>::render_to", 2)
     r_verbatim.capture_binds_text(p, rep, "<liquid_lib::stdlib::blocks::capture_block::Capture as liquid_core::runtime::renderable::Renderable>::render_to")
     r_utf8sink.run_unsafe(p, rep)
@@ -217,6 +220,9 @@ def c01(rep, tier):
     r_parsers.run_arity(p, rep)
     r_parsers.run_closed(p, rep)
     r_parsers.run_filter_arity(p, rep)
+    r_parsers.run_nodrop(p, rep)
+    r_term.run(p, rep, pr, "parse")
+    r_term.run_parse_cost(p, rep, pr)
     rep.analysed["config:all"] = {"bodies": len(p.fns), "parse_reachable": len(pr)}
 
 
@@ -230,6 +236,7 @@ def c02(rep, tier):
     r_utf8sink.run_unsafe(p, rep)
     r_lock.run_reentrant_refcell(p, rep)
     r_cmp.run_cmptotal(p, rep)
+    r_term.run(p, rep, rr, "render")
     rep.analysed["config:all"] = {"bodies": len(p.fns), "render_reachable": len(rr)}
     if tier == "thorough":
         for cfg in ("lib-stdlib", "lib-jekyll", "lib-shopify", "lib-extra", "nodefault"):
@@ -253,6 +260,9 @@ def c03(rep, tier):
     r_verbatim.no_calls(p, rep, "<liquid_lib::stdlib::blocks::comment_block::Comment" + RT)
     r_parsers.run_comment_raw(p, rep)
     r_parsers.run_escape_closer(p, rep)
+    r_parsers.run_nodrop(p, rep)
+    r_parsers.run_bodykeep(p, rep)
+    r_verbatim.buffered_render(p, rep)
     r_utf8sink.run(p, rep)
     rep.analysed["config:all"] = {"bodies": len(p.fns)}
 
@@ -378,14 +388,16 @@ PROPS = {
     "C04": {
         "run": c04,
         "level": "other",
-        "design_ref": "DESIGN.md §3 R-SCOPETYPE, R-FWD, R-RTCALLS, R-VERBATIM; §4 C04",
+        "design_ref": "DESIGN.md §3 R-SCOPETYPE, R-FWD, R-RTCALLS, R-ARGEVAL, R-VERBATIM; §4 C04",
         "technique": "layer order read from the MIR type of RuntimeBuilder::build, forwarding matrix rows for set_global/set_index/get/try_get, per-renderable Runtime-operation census",
         "explanation": (
             "Decided from MIR: the per-render runtime is Global over caller data over counters over core; every construct renders its body in the "
             "layers its scoping rule needs (for/tablerow/include: plain StackFrame over the caller's runtime; if/case/capture/ifchanged: the caller's "
             "runtime itself); assign/capture call exactly set_global, increment/decrement exactly get_index/set_index; each layer answers from its "
             "own data iff it holds the first path key, else delegates; capture never touches its writer and binds exactly Value::scalar(from_utf8(buffer)) "
-            "unconditionally; no user unsafe code. "
+            "unconditionally; no layer operation removes a binding; every Expression/Variable/FilterChain evaluation takes the runtime parameter of the "
+            "function it occurs in, never a layer built there (R-ARGEVAL: include/render arguments, loop attributes and conditions are read in the caller's "
+            "scope); no user unsafe code. "
             "NOT decided: the precedence outcome for each concrete program (follows from the above plus find())."
         ),
         "trusted": TRUST_COMMON,
@@ -524,7 +536,7 @@ PROPS = {
     "C01": {
         "run": c01,
         "level": "other",
-        "design_ref": "DESIGN.md §3 R-GRAMMAR, R-PANIC, R-ARITY, R-CLOSED, R-ARITH; §4 C01",
+        "design_ref": "DESIGN.md §3 R-GRAMMAR, R-PANIC, R-ARITY, R-CLOSED, R-ARITH, R-NODROP, R-TERM, R-PARSECOST; §4 C01",
         "technique": "panic-site census over the call graph reachable from the parser (MIR) with every site discharged by a pest-grammar fact (pest_meta AST), a dominating guard, another rule or a reviewed ledger line; grammar totality of the lax rule",
         "explanation": (
             "Decided for all input strings: the lax top-level grammar rule has the shape SOI ~ (A | !E ~ ANY)* ~ EOI with E an alternative of A, so it matches every "
@@ -532,7 +544,10 @@ PROPS = {
             "is enumerated from MIR and discharged: child-presence expects by always-present-children facts of the grammar, unreachable! arms by coverage of the "
             "grammar's alternatives, literal conversions by the literal rules' languages, defensive rule panics by their exact reviewed caller sets, string slices "
             "by boundary provenance, arithmetic by taint; every tag/block parser rejects leftover arguments on every Ok path and calls assert_empty only after its "
-            "block reader finished. NOT decided: termination/recursion depth, message content, panics inside pest. Known finding: F-LIT64."
+            "block reader finished; no block parser can return to its element reader with an element neither parsed nor consumed as a delimiter tag (R-NODROP: rejected "
+            "text cannot be skipped silently); every loop in parse-reachable workspace code pulls from a finite iterator / pest-backed reader (R-TERM) and no "
+            "parse-reachable code consumes a Range over the liquid integer type (R-PARSECOST: a literal cannot drive parse-time work). NOT decided: recursion depth, "
+            "termination inside pest/std iterators, message content, panics inside pest. Known finding: F-LIT64."
         ),
         "trusted": TRUST_COMMON + ["pest_meta grammar front end", "ledger/panic_sites.tsv L-REASON/D-LOCAL lines (listed in evidence)"],
         "note": "a census with obligations: new or unjustified panic-capable sites alarm; reasons marked L-REASON/D-LOCAL are human-reviewed, not machine-checked",
@@ -540,14 +555,16 @@ PROPS = {
     "C02": {
         "run": c02,
         "level": "other",
-        "design_ref": "DESIGN.md §3 R-PANIC, R-ARITH, R-DIV, R-STRSLICE, R-UTF8SINK, R-REENTRANT, R-CMPTOTAL; §4 C02",
+        "design_ref": "DESIGN.md §3 R-PANIC, R-ARITH, R-DIV, R-STRSLICE, R-UTF8SINK, R-REENTRANT, R-CMPTOTAL, R-TERM; §4 C02",
         "technique": "panic-site census over the render-reachable call graph; taint of template-controlled integers into overflow/division sites; character-boundary provenance of every str slice; RefCell guard live-range vs re-borrow reachability",
         "explanation": (
             "Decided for all templates and data: every panic-capable site reachable from any Renderable/Filter/Runtime/ValueView method is enumerated and discharged "
             "(as for C01); no unchecked arithmetic or division on a template-controlled integer without a dominating guard; every byte-range str index uses bounds "
             "that come from char_indices/len/find/len_utf8 (never subtraction, never an inclusive end); only write_fmt reaches the sink; no user unsafe; no RefCell "
-            "guard is live across a call that can re-borrow; sort comparators are total (known finding F-SORT). NOT decided: termination (range materialisation, padding "
-            "loops), values above the quantifier's bounds, panics inside dependencies."
+            "guard is live across a call that can re-borrow; sort comparators are total (known finding F-SORT); every loop in render-reachable workspace code pulls "
+            "from a finite iterator or is in the termination ledger with its variant (R-TERM: a hand-written scan loop whose progress depends on a template value is "
+            "reported). NOT decided: termination inside std/dependency iterators, memory cost of range materialisation, values above the quantifier's bounds, panics "
+            "inside dependencies."
         ),
         "trusted": TRUST_COMMON + ["ledger/panic_sites.tsv, ledger/arith.tsv reviewed lines"],
         "note": "see C01 note; width/size bounds of the quantifier are taken as given (OUT-OF-DOMAIN lines)",
@@ -555,14 +572,16 @@ PROPS = {
     "C03": {
         "run": c03,
         "level": "other",
-        "design_ref": "DESIGN.md §3 R-GRAMMAR(b,c), R-VERBATIM, R-BLOCKBODY; §4 C03",
+        "design_ref": "DESIGN.md §3 R-GRAMMAR(b,c), R-VERBATIM, R-BLOCKBODY, R-NODROP, R-BODYKEEP; §4 C03",
         "technique": "structural matching of the pest grammar AST (whitespace class, trim delimiters, Raw rule) + MIR shape of the text/raw/comment renderables and of the comment/raw block parsers",
         "explanation": (
             "Decided: WHITESPACE accepts exactly space, tab, LF, CR(LF); each of the four delimiters tries its trimming form first with WHITESPACE* on the outer side "
             "only; Raw checks every character against the start delimiters; Tag/Expression have no other whitespace consumption; Text and RawT print exactly one field "
             "of self with one sink write and call nothing else; Comment::render_to makes no call; the comment parser interprets nested tags only; the raw parser "
             "stores escape_liquid(false) unmodified; escape_liquid closes the block only on an end tag without further tokens; only write_fmt (never a bare write) "
-            "carries text to the sink. NOT decided: byte-for-byte equality for all texts, escape_liquid's span arithmetic."
+            "carries text to the sink; block parsers cannot skip an element they read (R-NODROP) nor remove/replace/reorder parsed elements before the template is "
+            "built (R-BODYKEEP); Template::render returns exactly the bytes of one render_to into a fresh per-call buffer (R-VERBATIM.buffered). NOT decided: "
+            "byte-for-byte equality for all texts, escape_liquid's span arithmetic."
         ),
         "trusted": TRUST_COMMON + ["pest_meta grammar front end; pest matching semantics"],
         "note": "grammar shape rules alarm on any reformulation of the delimiter rules (DESIGN §6 residual risk)",
